@@ -1262,7 +1262,8 @@ func (g *Gen) prescanLocals() {
 			byName[id.Name] = append(byName[id.Name], v)
 		}
 	}
-	for name, vs := range byName {
+	for _, name := range sortedKeys(byName) {
+		vs := byName[name]
 		sort.Slice(vs, func(i, j int) bool { return vs[i].Pos() < vs[j].Pos() })
 		for k, v := range vs {
 			// a name declared once is used as is; otherwise name$1, name$2, ... in
@@ -1433,6 +1434,13 @@ func (g *Gen) prescanCalls() {
 			for _, name := range callNames(cc) {
 				if !g.selectors[name] {
 					continue
+				}
+				for ai, a := range cc.Args {
+					gn := fmt.Sprintf("$arg:%s:%d", name, ai)
+					if g.argOfWanted[gn] && g.ghostSorts[gn] == "" {
+						g.ghostSorts[gn] = g.st.sortOf(a.Type())
+						g.ghostTypes[gn] = a.Type()
+					}
 				}
 				rs := cc.Signature().Results()
 				for ri := 0; ri < rs.Len(); ri++ {
